@@ -7,7 +7,8 @@
 // real DuckDB over the same rows and compared row by row (value for the projections, filter decision for
 // the WHERE clauses). Cases where DuckDB rejects the original are not judged.
 //
-// Files: main.go (driver, DuckDB workers), time.go (time_bucket/date_trunc grid), url.go (URL-domain
+// Files: main.go (driver, DuckDB workers), time.go (time_bucket/date_trunc grid), origin.go (origin x width grid
+// inside the range where the rewrite must agree with DuckDB), url.go (URL-domain
 // regex grid), like.go (LIKE / <> ” predicate grid), likebool.go (boolean structure / parenthesisation grid
 // around the trailing emptiness check).
 package main
@@ -318,6 +319,7 @@ func main() {
 	tg := newTimeGrid(quick)
 	ug := newURLGrid(quick)
 	lg := newLikeGrid(quick)
+	og := newOriginGrid(quick)
 	bg := newBoolGrid(quick)
 	setupSQL = append(setupSQL, tg.setup()...)
 	setupSQL = append(setupSQL, ug.setup()...)
@@ -338,7 +340,7 @@ func main() {
 	if debug {
 		fmt.Fprintf(os.Stderr, "setup done %.1fs\n", time.Since(t0).Seconds())
 	}
-	for _, sec := range []section{tg, ug, lg, bg} {
+	for _, sec := range []section{tg, og, ug, lg, bg} {
 		ok := sec.explore(run, ws, samples)
 		if debug {
 			fmt.Fprintf(os.Stderr, "%s done %.1fs %v\n", sec.name(), time.Since(t0).Seconds(), sec.coverage())
@@ -350,19 +352,24 @@ func main() {
 	}
 	sort.Slice(viols, func(i, j int) bool { return viols[i].Sig < viols[j].Sig })
 	for _, v := range viols {
+		if debug {
+			fmt.Fprintf(os.Stderr, "SIG %6d %s\n", v.Instances, v.Sig)
+		}
 		for k := 0; k < v.Instances; k++ {
 			run.Violate(v.Sig, v.Desc, v.Replay)
 		}
 	}
 	var evals, nontriv int64
-	for _, sec := range []section{tg, ug, lg, bg} {
+	for _, sec := range []section{tg, og, ug, lg, bg} {
 		st := sec.st()
 		evals += st.Pairs
 		nontriv += st.Judged
 	}
 	run.Coverage["evaluations"] = evals
 	run.Coverage["distinct_nontrivial"] = nontriv
-	run.Coverage["rule"] = "every statement of four explicit grids (time: every spelling x amount x unit x origin x column type over a table of boundary timestamps; " +
+	run.Coverage["rule"] = "every statement of five explicit grids (time: every spelling x amount x unit x origin x column type over a table of boundary timestamps; " +
+		"timeorigin: every width x origin x spelling x column type of the 3-argument time_bucket (plus the 2-argument form and date_trunc where their grid is the epoch grid), each over its own list of timestamps at, before and after the origin " +
+		"restricted to the range where the epoch formula must agree with DuckDB (fraction < .5 s, before the origin only on bucket boundaries; exact lists in coverage.timeorigin.bounds); " +
 		"url: every regex pattern built from the component grammar x REGEXP_REPLACE/REGEXP_EXTRACT over a table of URL strings; like: every WHERE clause of the predicate grammar over a table of all NULL/''/'x'/'y' combinations; " +
 		"likebool: every boolean structure (AND/OR/NOT, every parenthesisation, upper/lower-case keywords) of 1-3 LIKE / equality / IN / emptiness-check leaves over a table of all LIKE true/false/NULL x equality true/false/NULL x c empty/non-empty/NULL rows) " +
 		"is rewritten by Arc's real functions; evaluations = (statement,row) pairs where the rewrite changed the text and DuckDB accepted the original, each compared original vs rewritten in DuckDB; " +
